@@ -402,6 +402,7 @@ def run(ctx):
     rules = [r1_no_cross_request_reordering(ctx, prog), r2_pass_order(ctx, prog), r3_provenance(ctx, prog), r4_predicate(ctx)]
     if not ok and not r0.violations:
         r0.inst("evaluation not available", "fallback to structural rules R1-R4: %s" % str(why)[:120])
+        r0.viol("R0:undecided", "the evaluation cannot interpret the current code (%s): the clauses it decides are NOT decided on this tree; the structural rules reported alongside only cover part of them (fail closed)" % str(why)[:300])
         r0.floor = 1
     return [r0] + rules
 
